@@ -425,9 +425,9 @@ theorem lframe_is_message (f : LFrame) :
       Header.patchLengths, lframe_body_length]
   · simp [LFrame.len, LFrame.message, Builder.build, Message.toVec, lframe_body_length]; omega
 
-theorem lframe_wf (f : LFrame) (hid : f.id < 2^64) (hbf : f.bfmt < 2^16)
+theorem lframe_wf (f : LFrame) (hid : f.id < 2^64) (hqf : f.qfmt < 2^16) (hbf : f.bfmt < 2^16)
     (hlen : 48 + f.query.length + f.blen < 2^64) : f.message.WF :=
-  Builder.build_wf _ hid (by simp) (by simp) (by simpa using hbf)
+  Builder.build_wf _ hid (by simp) (by simpa using hqf) (by simpa using hbf)
     (by simpa [lframe_body_length] using hlen)
 
 /-! ### changing the representation of frames does not change the run -/
